@@ -41,6 +41,7 @@ pub enum Op {
 	IsPoisoned(usize),
 	ClearPoison(usize),
 	Fmt(usize),
+	FmtFail(usize, u32), // format collection c with the payload of lock `tag` failing in its Debug impl
 }
 
 #[derive(Clone, Debug)]
@@ -66,6 +67,7 @@ pub struct Scen {
 	pub schedule: Vec<usize>,
 	pub pct: Option<(Vec<usize>, Vec<usize>)>, // priority scheduling: thread priorities (highest first), demotion steps
 	pub hist: Vec<(usize, Op)>,
+	pub probes: Vec<(usize, Op)>, // run after the history, judged on the implementation only
 	pub progs: Vec<(usize, Vec<Op>)>, // Level B: per-thread programs
 }
 
@@ -111,6 +113,7 @@ fn parse_op(t: &[&str]) -> Op {
 		"ispoisoned" => Op::IsPoisoned(us(t[1])),
 		"clear" => Op::ClearPoison(us(t[1])),
 		"fmt" => Op::Fmt(us(t[1])),
+		"fmtfail" => Op::FmtFail(us(t[1]), us(t[2]) as u32),
 		x => panic!("bad op {x}"),
 	}
 }
@@ -174,6 +177,7 @@ pub fn parse(lines: &[String]) -> Scen {
 				}
 			}
 			"h" => sc.hist.push((us(t[1]), parse_op(&t[2..]))),
+			"q" => sc.probes.push((us(t[1]), parse_op(&t[2..]))),
 			"p" => {
 				let tid = us(t[1]);
 				let op = parse_op(&t[2..]);
